@@ -163,7 +163,12 @@ func Leaf(t *rapid.T, o ValOpts) rc.Val {
 	}
 	switch rapid.IntRange(0, hi).Draw(t, "leaf") {
 	case 0, 1:
-		return Int64Val(t, o)
+		v := Int64Val(t, o)
+		if o.Spellings && rapid.IntRange(0, 7).Draw(t, "held-as-big.Int") == 0 {
+			// a number that fits 64 bits but is held as big.Int / *big.Int by the caller
+			v.Sp = rapid.SampledFrom([]uint8{rc.SpBigInt, rc.SpBigIntPtr}).Draw(t, "bigsp")
+		}
+		return v
 	case 2:
 		return rc.Bytes(Blob(t, "bytes", BoundaryLen(t, "byteslen", false)))
 	case 3:
